@@ -343,3 +343,98 @@ Proof.
 Qed.
 
 End RF_FSR.
+
+(* ------------------------------------------------------------------ jls_wr_fsr_data = feed of Spec's extension *)
+Section RF_FSR2.
+Variable summ1 : N -> list N -> wm_sentry.
+Variable summN : bool -> list wm_sentry -> wm_sentry.
+
+(* the first call allocates the block buffer: timestamp = sample_id_offset = the call's sample id *)
+Definition rf_alloc (x : wm_fx) (sid : Z) : wm_fx :=
+  let f := wm_fx_fsr x in
+  if wm_f_alloc f then x else wm_fx_set_fsr x (wm_f_set_sid0 (wm_f_set_block f true sid 0 []) sid).
+
+(* what a call appends to the stream when the next expected sample id is [next]: Spec.fsr_write's three cases,
+   with the writer's fill value *)
+Definition rf_extend (dt : N) (next sid : Z) (samples : list N) : list N :=
+  if (sid =? next)%Z then samples
+  else if (sid <? next)%Z
+       then (if (sid + Z.of_nat (length samples) <=? next)%Z then [] else skipn (Z.to_nat (next - sid)) samples)
+       else repeat (wm_fill_sample dt) (Z.to_nat (sid - next)) ++ samples.
+
+Definition rf_next (x : wm_fx) : Z := (wm_f_ts (wm_fx_fsr x) + Z.of_N (wm_f_count (wm_fx_fsr x)))%Z.
+
+Lemma rf_alloc_binv : forall spd x sid, 0 < spd ->
+  (wm_f_alloc (wm_fx_fsr x) = true -> rf_binv spd (wm_fx_fsr x)) -> rf_binv spd (wm_fx_fsr (rf_alloc x sid)).
+Proof.
+  intros spd x sid Hs H. unfold rf_alloc. destruct (wm_f_alloc (wm_fx_fsr x)) eqn:E; [apply H; reflexivity|].
+  unfold rf_binv. cbn. split; [reflexivity|exact Hs].
+Qed.
+
+Lemma rf_fsr_data_feed : forall d x sid samples,
+  0 < sg_spd d -> 0 < wm_fill_buf_samples (sg_dtype d) ->
+  (wm_f_alloc (wm_fx_fsr x) = true -> rf_binv (sg_spd d) (wm_fx_fsr x)) -> samples <> [] ->
+  wm_fsr_data summ1 summN d x sid samples =
+  rf_feed summ1 summN d (rf_alloc x sid) (rf_extend (sg_dtype d) (rf_next (rf_alloc x sid)) sid samples).
+Proof.
+  intros d x sid samples Hs Hb Hinv Hne. unfold wm_fsr_data.
+  fold (rf_len samples).
+  destruct (N.eqb_spec (rf_len samples) 0) as [E|_]; [unfold rf_len in E; destruct samples; [congruence|cbn [length] in E; lia]|].
+  pose proof (rf_alloc_binv (sg_spd d) x sid Hs Hinv) as Hinv1.
+  change (wm_fx_set_fsr x (if wm_f_alloc (wm_fx_fsr x) then wm_fx_fsr x
+                           else wm_f_set_sid0 (wm_f_set_block (wm_fx_fsr x) true sid 0 []) sid))
+    with (wm_fx_set_fsr x (if wm_f_alloc (wm_fx_fsr x) then wm_fx_fsr x
+                           else wm_f_set_sid0 (wm_f_set_block (wm_fx_fsr x) true sid 0 []) sid)).
+  assert (Ex1 : wm_fx_set_fsr x (if wm_f_alloc (wm_fx_fsr x) then wm_fx_fsr x
+                                 else wm_f_set_sid0 (wm_f_set_block (wm_fx_fsr x) true sid 0 []) sid) = rf_alloc x sid).
+  { unfold rf_alloc. destruct (wm_f_alloc (wm_fx_fsr x)); [destruct x; reflexivity|reflexivity]. }
+  assert (Ef1 : (if wm_f_alloc (wm_fx_fsr x) then wm_fx_fsr x
+                 else wm_f_set_sid0 (wm_f_set_block (wm_fx_fsr x) true sid 0 []) sid) = wm_fx_fsr (rf_alloc x sid)).
+  { unfold rf_alloc. destruct (wm_f_alloc (wm_fx_fsr x)); reflexivity. }
+  rewrite Ex1, Ef1.
+  set (x1 := rf_alloc x sid) in *.
+  fold (rf_next x1). unfold rf_extend.
+  set (next := rf_next x1).
+  destruct (Z.eqb_spec sid next) as [Eq|Hneq].
+  - apply rf_inner_feed; [exact Hs|exact Hinv1|lia].
+  - destruct (Z.ltb_spec sid next) as [Hlt|Hge].
+    + replace (Z.of_N (rf_len samples)) with (Z.of_nat (length samples)) by (unfold rf_len; lia).
+      destruct (Z.leb_spec (sid + Z.of_nat (length samples)) next) as [Hle|Hgt].
+      * symmetry. apply rf_feed_nil; assumption.
+      * set (ffwd := Z.to_N (next - sid)).
+        assert (Hsk : rf_len (skipn (N.to_nat ffwd) samples) = rf_len samples - ffwd).
+        { unfold rf_len. rewrite skipn_length. subst ffwd. lia. }
+        rewrite <- Hsk.
+        replace (Z.to_nat (next - sid)) with (N.to_nat ffwd) by (subst ffwd; lia).
+        apply rf_inner_feed; [exact Hs|exact Hinv1|rewrite skipn_length; lia].
+    + set (skip := Z.to_N (sid - next)).
+      rewrite rf_gap_loop_feed; [|exact Hs|exact Hinv1|exact Hb|lia].
+      rewrite rf_inner_feed; [|exact Hs|apply rf_feed_binv; exact Hs|lia].
+      rewrite rf_feed_app by exact Hs.
+      replace (Z.to_nat (sid - next)) with (N.to_nat skip) by (subst skip; lia). reflexivity.
+Qed.
+
+End RF_FSR2.
+
+(* ------------------------------------------------------------------ wm_pack: length *)
+Ltac Zify.zify_post_hook ::= Z.div_mod_to_equations.
+
+Lemma rf_pack_sub_len : forall w l acc nbits, w < 8 -> nbits < 8 ->
+  rf_len (wm_pack_sub w l acc nbits) = (nbits + rf_len l * w + 7) / 8.
+Proof.
+  intros w l. induction l as [|s r IH]; intros acc nbits Hw Hn; cbn [wm_pack_sub].
+  - unfold rf_len. cbn [length]. destruct (N.eqb_spec nbits 0) as [->|Hne]; cbn [length]; lia.
+  - destruct (N.leb_spec 8 (nbits + w)) as [Hge|Hlt].
+    + unfold rf_len in *. cbn [length]. rewrite Nat2N.inj_succ, <- N.add_1_l. rewrite IH by lia. lia.
+    + rewrite IH by lia. unfold rf_len. cbn [length]. lia.
+Qed.
+
+Lemma rf_pack_len : forall w l, (w < 8 \/ w mod 8 = 0) ->
+  rf_len (wm_pack w l) = (rf_len l * w + 7) / 8.
+Proof.
+  intros w l Hw. unfold wm_pack. destruct (N.ltb_spec w 8) as [Hlt|Hge].
+  - rewrite rf_pack_sub_len by lia. f_equal.
+  - destruct Hw as [Hw|Hw]; [lia|].
+    unfold rf_len. induction l as [|s r IH]; cbn [flat_map length]; [reflexivity|].
+    rewrite app_length, fm_enc_length, Nat2N.inj_add, IH. lia.
+Qed.
